@@ -394,3 +394,69 @@ func countMaps(x interface{}) int {
 	}
 	return n
 }
+
+// Component "matchconc" (C03, concurrent part): one shared pattern, message
+// and bindings value matched from many goroutines at once; every result must
+// equal the sequential one and the shared arguments must stay intact.  Built
+// with -race for the check, so a data race aborts the run with a report.
+func init() { components["matchconc"] = matchConcComponent }
+
+func matchConcComponent(g *G, n int, opts map[string]string) *Out {
+	o := newOut("Corr.MatchCorr", "mcase")
+	workers := 16
+	var inputs []*matchCase
+	for _, c := range matchCorpus() {
+		inputs = append(inputs, c)
+	}
+	for i := 0; i < n; i++ {
+		ctx := newPctx()
+		p := g.pattern(3, ctx)
+		sigma := map[string]interface{}{}
+		f := g.instantiate(p, sigma, ctx, true)
+		inputs = append(inputs, &matchCase{Kind: "conc-instance", P: p, F: f, Bs: g.bindingsFor(ctx, sigma)})
+	}
+	for _, c := range inputs {
+		p, f, bs := deepCopy(c.P, nil), deepCopy(c.F, nil), deepCopy(c.Bs, nil).(map[string]interface{})
+		before := canon(p) + canon(f) + canon(bs)
+		class, res := callMatch(p, f, bs)
+		want := multisetKey(class, res)
+		c.Class = class
+		for _, r := range res {
+			c.Results = append(c.Results, deepCopy(r, nil).(map[string]interface{}))
+		}
+		c.RepsAgree, c.Intact, c.Independent = true, true, true
+		got := make(chan string, workers)
+		for w := 0; w < workers; w++ {
+			go func() {
+				for k := 0; k < 4; k++ {
+					cl, rs := callMatch(p, f, bs)
+					// results are private: mutate them freely
+					for _, r := range rs {
+						r["zz"] = 1.0
+						delete(r, "zz")
+					}
+					if multisetKey(cl, rs) != want {
+						got <- "diff"
+						return
+					}
+				}
+				got <- "same"
+			}()
+		}
+		for w := 0; w < workers; w++ {
+			if <-got != "same" {
+				c.RepsAgree = false
+			}
+		}
+		if canon(p)+canon(f)+canon(bs) != before {
+			c.Intact = false
+		}
+		term, ok := c.coq()
+		if !ok {
+			continue
+		}
+		o.count("kind:" + c.Kind)
+		o.add(term, canon(c.P)+canon(c.F)+canon(c.Bs), countMaps(c.P)+countMaps(c.F) > 0, c)
+	}
+	return o
+}
